@@ -1472,7 +1472,7 @@ func (m *MapPollard) Read(r io.Reader) (int, error) {
 	var buf [8]byte
 
 	// Read the total rows.
-	bytes, err := r.Read(buf[:1])
+	bytes, err := io.ReadFull(r, buf[:1])
 	if err != nil {
 		return totalBytes, err
 	}
@@ -1480,7 +1480,7 @@ func (m *MapPollard) Read(r io.Reader) (int, error) {
 	totalBytes += bytes
 
 	// Read the number of leaves.
-	bytes, err = r.Read(buf[:])
+	bytes, err = io.ReadFull(r, buf[:])
 	if err != nil {
 		return totalBytes, err
 	}
@@ -1488,7 +1488,7 @@ func (m *MapPollard) Read(r io.Reader) (int, error) {
 	m.NumLeaves = binary.LittleEndian.Uint64(buf[:])
 
 	// Read the count for the cache leaf elements in the map.
-	bytes, err = r.Read(buf[:])
+	bytes, err = io.ReadFull(r, buf[:])
 	if err != nil {
 		return totalBytes, err
 	}
@@ -1498,14 +1498,14 @@ func (m *MapPollard) Read(r io.Reader) (int, error) {
 	// Read elements and put them in the map.
 	var hash Hash
 	for i := 0; i < int(numCachedLeaves); i++ {
-		read, err := r.Read(hash[:])
+		read, err := io.ReadFull(r, hash[:])
 		if err != nil {
 			return totalBytes, err
 		}
 		totalBytes += read
 
 		// Read the number of leaves.
-		bytes, err = r.Read(buf[:])
+		bytes, err = io.ReadFull(r, buf[:])
 		if err != nil {
 			return totalBytes, err
 		}
@@ -1514,7 +1514,7 @@ func (m *MapPollard) Read(r io.Reader) (int, error) {
 	}
 
 	// Read the count for the node elements in the map.
-	bytes, err = r.Read(buf[:])
+	bytes, err = io.ReadFull(r, buf[:])
 	if err != nil {
 		return totalBytes, err
 	}
@@ -1523,14 +1523,14 @@ func (m *MapPollard) Read(r io.Reader) (int, error) {
 
 	var leafBuf [33]byte
 	for i := 0; i < int(nodeCount); i++ {
-		bytes, err := r.Read(buf[:])
+		bytes, err := io.ReadFull(r, buf[:])
 		if err != nil {
-			return bytes, err
+			return totalBytes, err
 		}
 		totalBytes += bytes
 		position := binary.LittleEndian.Uint64(buf[:])
 
-		read, err := r.Read(leafBuf[:])
+		read, err := io.ReadFull(r, leafBuf[:])
 		if err != nil {
 			return totalBytes, err
 		}
@@ -1561,7 +1561,7 @@ func (m *MapPollard) Read(r io.Reader) (int, error) {
 		return nil
 	})
 	if err != nil {
-		return bytes, err
+		return totalBytes, err
 	}
 
 	return totalBytes, nil
